@@ -40,15 +40,21 @@ TReset    == IsEv("Reset") /\ key' = [i \in 1 .. MaxK |-> NoKey] /\ blob' = [i \
 TProbe    == IsEv("Probe") /\ UNCHANGED <<vars, sem>> /\ Keep
              /\ (E.advertised /\ ~E.works => "AdvertisedButUnusable" \in Dev /\ PrintT(<<"DEV", bn, "AdvertisedButUnusable">>))
 TImport   == IsEv("Import") /\ MImport(E.kind, E.i) /\ RvOK /\ E.k = out'.k /\ Bind(out'.v, E.v) /\ KcvOK /\ E.v = E.ref /\ Keep
+TImportT  == IsEv("ImportT") /\ MImportT(E.kind, E.i, E.enc, E.wt, E.ut) /\ RvOK /\ E.k = out'.k /\ Bind(out'.v, E.v) /\ KcvOK
+             /\ E.v = E.ref /\ Keep
 TGenerate == IsEv("Generate") /\ MGenerate(E.kind) /\ RvOK /\ E.k = out'.k /\ Bind(out'.v, E.v) /\ KcvOK /\ Keep
 TWrap     == IsEv("Wrap") /\ MWrap(E.m, E.w, E.k, E.iv) /\ RvOK /\ Keep
              /\ IF out'.rv = "OK" THEN /\ E.b = out'.b /\ Bind(out'.v, E.v)
                                        /\ (IF Randomised(E.m) THEN E.refun ELSE E.v = E.ref)   \* the standard's bytes
                                   ELSE UNCHANGED sem
 TDamage   == IsEv("Damage") /\ MDamage(E.b, E.how) /\ UNCHANGED sem /\ Keep
-TUnwrap   == IsEv("Unwrap") /\ MUnwrap(E.m, E.w, E.b) /\ RvOK /\ Keep
-             /\ IF E.rv = "OK" THEN /\ out'.rv = "OK" /\ E.k = out'.k /\ E.made = 1 /\ Bind(out'.v, E.v) /\ KcvOK /\ E.attrsok
-                               ELSE out'.rv # "OK" /\ E.made = 0 /\ UNCHANGED sem      \* rejected: nothing was created
+\* enc: CKA_ENCRYPT of the new key as read back ("absent" for an RSA private key)
+UnwrapJudged == /\ RvOK /\ Keep
+                /\ IF E.rv = "OK" THEN /\ out'.rv = "OK" /\ E.k = out'.k /\ E.made = 1 /\ Bind(out'.v, E.v) /\ KcvOK /\ E.attrsok
+                                       /\ E.enc = EncOf(key'[out'.k].kind, key'[out'.k].enc)
+                                  ELSE out'.rv # "OK" /\ E.made = 0 /\ UNCHANGED sem      \* rejected: nothing was created
+TUnwrap   == IsEv("Unwrap") /\ MUnwrap(E.m, E.w, E.b) /\ UnwrapJudged
+TUnwrapT  == IsEv("UnwrapT") /\ MUnwrapT(E.m, E.w, E.b, E.te) /\ UnwrapJudged
 TUnwrapAs == IsEv("UnwrapAs") /\ MUnwrapAs(E.m, E.w, E.b) /\ E.rv # "OK" /\ E.made = 0 /\ UNCHANGED sem /\ Keep
 TDerive   == IsEv("Derive") /\ MDerive(E.m, E.base, E.d, E.kind) /\ RvOK /\ Keep
              /\ IF out'.rv = "OK" THEN E.k = out'.k /\ E.made = 1 /\ Bind(out'.v, E.v) /\ E.v = E.ref /\ KcvOK /\ E.attrsok
@@ -68,7 +74,7 @@ TDigest   == IsEv("Digest") /\ MDigest(E.mode, E.d, E.ch) /\ E.rv = "OK" /\ Bind
 TRCrypt   == IsEv("RCrypt") /\ MRCrypt(E.mode, E.k, E.d) /\ E.rv = "OK" /\ E.refok /\ E.libok /\ E.tamper /\ UNCHANGED sem /\ Keep
 
 TInit == Init /\ l = 1 /\ bn = 0 /\ cfg = "" /\ sem = {} /\ TLCSet(1, 1)
-TNext == TReset \/ TProbe \/ TImport \/ TGenerate \/ TWrap \/ TDamage \/ TUnwrap \/ TUnwrapAs \/ TDerive \/ TValue \/ TCrypt \/ TDigest \/ TRCrypt
+TNext == TReset \/ TProbe \/ TImport \/ TImportT \/ TGenerate \/ TWrap \/ TDamage \/ TUnwrap \/ TUnwrapT \/ TUnwrapAs \/ TDerive \/ TValue \/ TCrypt \/ TDigest \/ TRCrypt
 TSpec == TInit /\ [][TNext]_tvars
 TrackMax == IF l > TLCGet(1) THEN TLCSet(1, l) ELSE TRUE
 TraceAccepted == PrintT(<<"MAXL", TLCGet(1)>>)
